@@ -43,7 +43,11 @@ class FakeFile(object):
     def write(self, s):
         if self.closed:
             raise ValueError('I/O operation on closed file.')
-        self.buf += s.decode('utf-8') if isinstance(s, (bytes, bytearray)) else s
+        if isinstance(s, (bytes, bytearray)):
+            s = s.decode('utf-8')
+        else:
+            s.encode('utf-8')        # a text file encodes what it is given: a lone surrogate raises UnicodeEncodeError
+        self.buf += s
         return len(s)
 
     def flush(self):
